@@ -12,6 +12,8 @@ import Selene.Scope.Ordered
 namespace Selene.Scope.CoreProof
 open Selene.Lua Selene.Scope.Spec Selene.Scope.Core Selene.Scope.Ordered
 
+set_option linter.unusedSectionVars false
+
 /-- the local declaration a stack lookup denotes: hoisted globals and barriers are not locals -/
 def lb : Option (Nat × Bool) → Option Nat
   | some (d, false) => some d
@@ -51,38 +53,38 @@ theorem look_bind (env : Env) (t : Tok) (name : String) (k : DeclKind) (n : Stri
 
 /-! ### answers -/
 
-theorem answers_push (σ : St) (r : Ref) :
-    St.answers { σ with refs := σ.refs ++ [r] } =
-      σ.answers ++ (if r.counted = true then [(r.tok, localBinding r)] else []) := by
-  simp only [St.answers, List.filter_append, List.map_append]
+theorem log_push (σ : St) (r : Ref) :
+    St.log { σ with refs := σ.refs ++ [r] } =
+      σ.log ++ (if r.counted = true then [r.ans] else []) := by
+  simp only [St.log, List.filter_append, List.map_append]
   by_cases h : r.counted = true <;> simp [h]
 
-theorem answers_rewrite (σ : St) (name : String) (d : Nat) :
-    St.answers { σ with refs := σ.refs.map (rewrite name (d, true)) } = σ.answers := by
-  simp only [St.answers]
+theorem ans_rewrite (name : String) (d : Nat) (r : Ref) : (rewrite name (d, true) r).ans = r.ans := by
+  unfold rewrite; split
+  · rename_i h; simp [Ref.ans, localBinding, h.2.1, h.2.2]
+  · rfl
+
+theorem log_rewrite (σ : St) (name : String) (d : Nat) :
+    St.log { σ with refs := σ.refs.map (rewrite name (d, true)) } = σ.log := by
+  simp only [St.log]
   induction σ.refs with
   | nil => simp
   | cons r rest ih =>
     have hc : (rewrite name (d, true) r).counted = r.counted := by unfold rewrite; split <;> rfl
-    have ht : (rewrite name (d, true) r).tok = r.tok := by unfold rewrite; split <;> rfl
-    have hl : localBinding (rewrite name (d, true) r) = localBinding r := by
-      unfold rewrite; split
-      · rename_i h; simp [localBinding, h.2]
-      · rfl
     simp only [List.map_cons, List.filter_cons, hc]
-    split <;> simp [ih, ht, hl]
+    split <;> simp [ih, ans_rewrite]
 
 /-! ### how a traversal relates its start and end states -/
 
 structure Pure (σ σ' : St) (out : List Ans) : Prop where
   stack : σ'.stack = σ.stack
   fd : σ'.fdepth = σ.fdepth
-  ans : σ'.answers = σ.answers ++ out
+  ans : σ'.log = σ.log ++ out
 
 structure Grow (σ σ' : St) (out : List Ans) : Prop where
   stack : ∃ hd hd' tl, σ.stack = hd :: tl ∧ σ'.stack = hd' :: tl
   fd : σ'.fdepth = σ.fdepth
-  ans : σ'.answers = σ.answers ++ out
+  ans : σ'.log = σ.log ++ out
 
 theorem Pure.refl (σ : St) : Pure σ σ [] := ⟨rfl, rfl, by simp⟩
 
@@ -121,14 +123,14 @@ theorem Pure.thenGrow {σ₁ σ₂ σ₃ : St} {o₁ o₂ : List Ans} (h₁ : Pu
 
 /-- a traversal that ran inside a scope opened on top of `σ` and whose scope is closed again -/
 theorem Grow.closed {σ σ₁ σ₂ : St} {o₁ o : List Ans} {hd : Scope}
-    (hopen : σ₁.stack = hd :: σ.stack) (hfd : σ₁.fdepth = σ.fdepth) (hans : σ₁.answers = σ.answers ++ o₁)
+    (hopen : σ₁.stack = hd :: σ.stack) (hfd : σ₁.fdepth = σ.fdepth) (hans : σ₁.log = σ.log ++ o₁)
     (h : Grow σ₁ σ₂ o) : Pure σ σ₂.close (o₁ ++ o) := by
   obtain ⟨h1, h2, tl, e1, e2⟩ := h.stack
   rw [hopen] at e1
   injection e1 with _ e3
   subst e3
   refine ⟨by simp [St.close, e2], by simp [St.close, h.fd, hfd], ?_⟩
-  have : σ₂.close.answers = σ₂.answers := rfl
+  have : σ₂.close.log = σ₂.log := rfl
   rw [this, h.ans, hans, List.append_assoc]
 
 /-! ### primitives -/
@@ -143,15 +145,15 @@ theorem read_pure (σ : St) (t : Tok) {inF : Bool} {env : Env} (r : Rel σ.stack
   · have h' : ¬ (inF = false ∧ t.text = "...") := fun hh => h ⟨r.fd.mpr hh.1, hh.2⟩
     simp only [h, h', if_false]
     refine ⟨rfl, rfl, ?_⟩
-    rw [answers_push]
-    simp [localBinding_eq, r.env]
+    rw [log_push]
+    simp [Ref.ans, localBinding_eq, r.env]
 
 theorem read_uncounted_pure (σ : St) (t : Tok) : Pure σ (σ.read t false) [] := by
   unfold St.read
   split
   · exact Pure.refl σ
   · refine ⟨rfl, rfl, ?_⟩
-    rw [answers_push]; simp
+    rw [log_push]; simp
 
 theorem define_grow (σ : St) (e : Entry) (ne : σ.stack ≠ []) :
     Grow σ (σ.define e) [] ∧ ∃ hd tl, σ.stack = hd :: tl ∧ (σ.define e).stack = (e :: hd) :: tl := by
@@ -159,21 +161,32 @@ theorem define_grow (σ : St) (e : Entry) (ne : σ.stack ≠ []) :
   | nil => exact absurd hs ne
   | cons hd tl =>
     have hst : (σ.define e).stack = (e :: hd) :: tl := by simp [St.define, hs]
-    refine ⟨⟨⟨hd, e :: hd, tl, hs, hst⟩, by simp [St.define, hs], by simp [St.define, hs, St.answers]⟩, hd, tl, rfl, hst⟩
+    refine ⟨⟨⟨hd, e :: hd, tl, hs, hst⟩, by simp [St.define, hs], by simp [St.define, hs, St.log]⟩, hd, tl, rfl, hst⟩
 
-/-- defining a local: the environment gains the binding -/
+variable [NameFilter]
+
+theorem logDecl_pure (σ : St) (t : Tok) (name : String) {inF : Bool} {env : Env}
+    (r : Rel σ.stack σ.fdepth inF env) : Pure σ (σ.logDecl t name) (sDecl env t name) := by
+  refine ⟨rfl, rfl, ?_⟩
+  unfold St.logDecl
+  simp only
+  rw [log_push]
+  by_cases hk : NameFilter.keep name = true <;> simp [Ref.ans, sDecl, localBinding_eq, r.env, hk]
+
 theorem local_grow (σ : St) (t : Tok) (name : String) (k : DeclKind) {inF : Bool} {env : Env}
     (r : Rel σ.stack σ.fdepth inF env) :
-    Grow σ (σ.define { name := name, info := some (t.idx, false) }) [] ∧
-    Rel (σ.define { name := name, info := some (t.idx, false) }).stack
-        (σ.define { name := name, info := some (t.idx, false) }).fdepth inF (bindTok env t name k) := by
-  obtain ⟨g, hd, tl, e1, e2⟩ := define_grow σ { name := name, info := some (t.idx, false) } r.ne
-  refine ⟨g, ⟨by rw [e2]; simp, by rw [g.fd]; exact r.fd, ?_⟩⟩
+    Grow σ (σ.declare t name) (sDecl env t name) ∧
+    Rel (σ.declare t name).stack (σ.declare t name).fdepth inF (bindTok env t name k) := by
+  have p := logDecl_pure σ t name r
+  have r0 := p.rel r
+  obtain ⟨g, hd, tl, e1, e2⟩ := define_grow (σ.logDecl t name) { name := name, info := some (t.idx, false) } r0.ne
+  refine ⟨by simpa [St.declare, sDecl] using p.thenGrow g, ⟨by show (St.define _ _).stack ≠ []; rw [e2]; simp, by show (St.define _ _).fdepth = 0 ↔ _; rw [g.fd]; exact r0.fd, ?_⟩⟩
   intro n
+  show lb (stackFind (St.define _ _).stack n) = _
   rw [e2, stackFind_define, look_bind]
   by_cases h : name = n
   · simp [h, lb]
-  · simp only [h, if_false]; rw [← e1]; exact r.env n
+  · simp only [h, if_false]; rw [← e1]; exact r0.env n
 
 /-- the `...` barrier of a function that declares no `...` -/
 theorem barrier_grow (σ : St) {inF : Bool} {env : Env} (r : Rel σ.stack σ.fdepth inF env) :
@@ -197,7 +210,7 @@ theorem hoist_grow (σ : St) (t : Tok) {inF : Bool} {env : Env} (r : Rel σ.stac
   | none =>
     obtain ⟨g, hd, tl, e1, e2⟩ := define_grow σ { name := t.text, info := some (t.idx, true) } r.ne
     refine ⟨⟨g.stack, g.fd, ?_⟩, ⟨by simp [e2], by simpa using (g.fd ▸ r.fd), ?_⟩⟩
-    · have := answers_rewrite (σ.define { name := t.text, info := some (t.idx, true) }) t.text t.idx
+    · have := log_rewrite (σ.define { name := t.text, info := some (t.idx, true) }) t.text t.idx
       simp only at this ⊢
       rw [this, g.ans]
     · intro n
@@ -356,82 +369,54 @@ theorem Pure.block {σ σ' : St} {o o' : List Ans} {inF : Bool} {env : Env} (h :
 
 /-- generalised `Grow.closed`: the scope was opened by a function body that also raised the depth by `k` -/
 theorem Grow.closedK {σ σ₁ σ₂ : St} {o₁ o : List Ans} {hd : Scope} (k : Nat)
-    (hopen : σ₁.stack = hd :: σ.stack) (hfd : σ₁.fdepth = σ.fdepth + k) (hans : σ₁.answers = σ.answers ++ o₁)
+    (hopen : σ₁.stack = hd :: σ.stack) (hfd : σ₁.fdepth = σ.fdepth + k) (hans : σ₁.log = σ.log ++ o₁)
     (h : Grow σ₁ σ₂ o) :
-    σ₂.close.stack = σ.stack ∧ σ₂.close.fdepth = σ.fdepth + k ∧ σ₂.close.answers = σ.answers ++ (o₁ ++ o) := by
+    σ₂.close.stack = σ.stack ∧ σ₂.close.fdepth = σ.fdepth + k ∧ σ₂.close.log = σ.log ++ (o₁ ++ o) := by
   obtain ⟨h1, h2, tl, e1, e2⟩ := h.stack
   rw [hopen] at e1
   injection e1 with _ e3
   subst e3
   refine ⟨by simp [St.close, e2], by simp [St.close, h.fd, hfd], ?_⟩
-  have : σ₂.close.answers = σ₂.answers := rfl
+  have : σ₂.close.log = σ₂.log := rfl
   rw [this, h.ans, hans, List.append_assoc]
 
 theorem defineAll_grow (k : DeclKind) (names : List Tok) (σ : St) (inF : Bool) (env : Env)
     (r : Rel σ.stack σ.fdepth inF env) :
-    Grow σ (defineAll σ names) [] ∧
+    Grow σ (defineAll σ names) (sDeclAll env k names) ∧
     Rel (defineAll σ names).stack (defineAll σ names).fdepth inF (bindAll env k names) := by
   induction names generalizing σ env with
   | nil => exact ⟨(Pure.refl σ).grow r.ne, r⟩
   | cons t rest ih =>
     obtain ⟨g1, r1⟩ := local_grow σ t t.text k r
     obtain ⟨g2, r2⟩ := ih _ _ r1
-    exact ⟨by simpa [defineAll, St.local_] using g1.trans g2, by simpa [defineAll, St.local_, bindAll] using r2⟩
+    exact ⟨by simpa [defineAll, St.local_, sDeclAll] using g1.trans g2, by simpa [defineAll, St.local_, bindAll] using r2⟩
 
-/-- parameters on top of the `...` barrier: the stack agrees with the specification's environment,
-    which has the barrier only when the function declares no `...` -/
+/-- parameters on top of the `...` barrier -/
 theorem defineParams_grow (ps : List Param) (σ : St) (inF : Bool) (env : Env)
-    (ne : σ.stack ≠ []) (fd : σ.fdepth = 0 ↔ inF = false)
-    (h : ∀ n, n ≠ "..." → lb (stackFind σ.stack n) = look env n)
-    (hd : hasDots ps = true ∨ lb (stackFind σ.stack "...") = look env "...") :
-    Grow σ (defineParams σ ps) [] ∧
+    (r : Rel σ.stack σ.fdepth inF env) :
+    Grow σ (defineParams σ ps) (sDeclParams env ps) ∧
     Rel (defineParams σ ps).stack (defineParams σ ps).fdepth inF (bindParams env ps) := by
   induction ps generalizing σ env with
-  | nil =>
-    refine ⟨(Pure.refl σ).grow ne, ⟨ne, fd, ?_⟩⟩
-    intro n
-    by_cases hn : n = "..."
-    · subst hn
-      rcases hd with hd | hd
-      · simp [hasDots] at hd
-      · exact hd
-    · exact h n hn
+  | nil => exact ⟨(Pure.refl σ).grow r.ne, r⟩
   | cons p rest ih =>
     cases p with
     | name t =>
-      obtain ⟨g, hd0, tl, e1, e2⟩ := define_grow σ { name := t.text, info := some (t.idx, false) } ne
-      have hfd : (σ.define { name := t.text, info := some (t.idx, false) }).fdepth = 0 ↔ inF = false := by
-        rw [g.fd]; exact fd
-      have hx : ∀ n, lb (stackFind σ.stack n) = look env n →
-          lb (stackFind (σ.define { name := t.text, info := some (t.idx, false) }).stack n) =
-            look (bindTok env t t.text .param) n := by
-        intro n hn
-        rw [e2, stackFind_define, look_bind]
-        by_cases hh : t.text = n
-        · simp [hh, lb]
-        · simp only [hh, if_false]; rw [← e1]; exact hn
-      obtain ⟨g2, r2⟩ := ih (σ.define { name := t.text, info := some (t.idx, false) })
-        (bindTok env t t.text .param) (by rw [e2]; simp) hfd
-        (fun n hn => hx n (h n hn))
-        (by
-          rcases hd with hd | hd
-          · left; simpa [hasDots] using hd
-          · right; exact hx _ hd)
-      exact ⟨by simpa [defineParams, St.local_] using g.trans g2, by simpa [defineParams, St.local_, bindParams] using r2⟩
+      obtain ⟨g1, r1⟩ := local_grow σ t t.text .param r
+      obtain ⟨g2, r2⟩ := ih _ _ r1
+      exact ⟨by simpa [defineParams, St.local_, sDeclParams] using g1.trans g2,
+        by simpa [defineParams, St.local_, bindParams] using r2⟩
     | dots t =>
-      obtain ⟨g, hd0, tl, e1, e2⟩ := define_grow σ { name := "...", info := some (t.idx, false) } ne
-      have hfd : (σ.define { name := "...", info := some (t.idx, false) }).fdepth = 0 ↔ inF = false := by
-        rw [g.fd]; exact fd
-      obtain ⟨g2, r2⟩ := ih (σ.define { name := "...", info := some (t.idx, false) })
-        (bindTok env t "..." .varargParam) (by rw [e2]; simp) hfd
-        (fun n hn => by
-          rw [e2, stackFind_define, look_bind]
-          have hh : ¬ ("..." = n) := fun hh => hn hh.symm
-          simp only [hh, if_false]; rw [← e1]; exact h n hn)
-        (by right; rw [e2, stackFind_define, look_bind]; simp [lb])
-      exact ⟨by simpa [defineParams] using g.trans g2, by simpa [defineParams, bindParams] using r2⟩
-
-
+      obtain ⟨g, hd0, tl, e1, e2⟩ := define_grow σ { name := "...", info := some (t.idx, false) } r.ne
+      have r1 : Rel (σ.define { name := "...", info := some (t.idx, false) }).stack
+          (σ.define { name := "...", info := some (t.idx, false) }).fdepth inF (bindTok env t "..." .varargParam) := by
+        refine ⟨by rw [e2]; simp, by rw [g.fd]; exact r.fd, ?_⟩
+        intro n
+        rw [e2, stackFind_define, look_bind]
+        by_cases h : "..." = n
+        · simp [h, lb]
+        · simp only [h, if_false]; rw [← e1]; exact r.env n
+      obtain ⟨g2, r2⟩ := ih _ _ r1
+      exact ⟨by simpa [defineParams, sDeclParams] using g.trans g2, by simpa [defineParams, bindParams] using r2⟩
 
 theorem body_case (sp : Span) (params : List Param) (b : Block)
     (hb : BlockOK (fun σ => block σ b) (fun inF env => sBlock inF env b)) :
@@ -439,51 +424,25 @@ theorem body_case (sp : Span) (params : List Param) (b : Block)
   intro σ inF env r
   let σ₀ : St := { σ.open with fdepth := σ.fdepth + 1 }
   have hs0 : σ₀.stack = [] :: σ.stack := rfl
-  have ne0 : σ₀.stack ≠ [] := by simp [hs0]
-  obtain ⟨g1, hd1, tl1, e1, e2⟩ := define_grow σ₀ { name := "...", info := none } ne0
-  rw [hs0] at e1
-  injection e1 with e1a e1b
-  subst e1a e1b
-  let envB : Env := if hasDots params then env else ("...", none) :: env
-  have hagree : ∀ n, n ≠ "..." →
-      lb (stackFind (σ₀.define { name := "...", info := none }).stack n) = look envB n := by
-    intro n hn
-    have hh : ¬ ("..." = n) := fun hh => hn hh.symm
-    rw [e2, stackFind_define]
-    simp only [hh, if_false]
-    rw [stackFind_open, r.env n]
-    simp only [envB]
-    split
-    · rfl
-    · rw [look_cons]; simp [hh]
-  have hdots : hasDots params = true ∨
-      lb (stackFind (σ₀.define { name := "...", info := none }).stack "...") = look envB "..." := by
-    by_cases hp : hasDots params = true
-    · exact Or.inl hp
-    · right
-      rw [e2, stackFind_define]
-      have hp' : hasDots params = false := by simpa using hp
-      have hB : envB = ("...", none) :: env := by simp [envB, hp']
-      rw [hB, look_cons]; simp [lb]
-  have fd1 : (σ₀.define { name := "...", info := none }).fdepth = 0 ↔ true = false := by
-    rw [g1.fd]; simp [σ₀]
-  obtain ⟨g2, r2⟩ := defineParams_grow params (σ₀.define { name := "...", info := none }) true envB
-    (by rw [e2]; simp) fd1 hagree hdots
+  have r0 : Rel σ₀.stack σ₀.fdepth true env :=
+    ⟨by simp [hs0], by simp [σ₀], fun n => by rw [hs0, stackFind_open]; exact r.env n⟩
+  obtain ⟨g1, r1⟩ := barrier_grow σ₀ r0
+  obtain ⟨g2, r2⟩ := defineParams_grow params _ true _ r1
   obtain ⟨g3, r3⟩ := hb _ true _ r2
-  have hc := Grow.closedK (σ := σ) (σ₁ := σ₀) 1 hs0 rfl (by simp [σ₀, St.open, St.answers] : σ₀.answers = σ.answers ++ [])
+  have hc := Grow.closedK (σ := σ) (σ₁ := σ₀) 1 hs0 rfl (by simp [σ₀, St.open, St.log] : σ₀.log = σ.log ++ [])
     ((g1.trans g2).trans g3)
   obtain ⟨c1, c2, c3⟩ := hc
   refine ⟨c1, ?_, ?_⟩
   · show (block (defineParams (σ₀.define { name := "...", info := none }) params) b).close.fdepth - 1 = σ.fdepth
     rw [c2]; simp
-  · show (block (defineParams (σ₀.define { name := "...", info := none }) params) b).close.answers = _
-    rw [c3]; simp [sBody, envB]
+  · show (block (defineParams (σ₀.define { name := "...", info := none }) params) b).close.log = _
+    rw [c3]; simp [sBody]
 
 
 
 theorem Grow.cast {σ σ' : St} {o o' : List Ans} (h : Grow σ σ' o) (e : o = o') : Grow σ σ' o' := e ▸ h
 
-theorem open_answers (σ : St) : σ.open.answers = σ.answers ++ [] := by simp [St.open, St.answers]
+theorem open_answers (σ : St) : σ.open.log = σ.log ++ [] := by simp [St.open, St.log]
 
 /-- run something inside a fresh scope on top of `σ`, then close it -/
 theorem inScope {σ σ₂ : St} {o : List Ans} (g : Grow σ.open σ₂ o) : Pure σ σ₂.close o := by
@@ -582,7 +541,7 @@ theorem numFor_case (sp : Span) (v comma : Tok) (start stop : Expr) (step : OptE
     exact ((e1.trans e2).trans outer).block r
       (by show _ = eE inF env start ++ eE inF env stop ++ [] ++
               dE inF env start ++ dE inF env stop ++ [] ++
-              (sBlock inF (bindTok env v v.text .loopVar) b).1
+              sDecl env v v.text ++ (sBlock inF (bindTok env v v.text .loopVar) b).1
           simp [List.append_assoc])
   | some st =>
     have e3 := eagerE_pure _ st ((e1.trans e2).rel r)
@@ -597,7 +556,7 @@ theorem numFor_case (sp : Span) (v comma : Tok) (start stop : Expr) (step : OptE
     exact (((e1.trans e2).trans e3).trans outer).block r
       (by show _ = eE inF env start ++ eE inF env stop ++ eE inF env st ++
               dE inF env start ++ dE inF env stop ++ dE inF env st ++
-              (sBlock inF (bindTok env v v.text .loopVar) b).1
+              sDecl env v v.text ++ (sBlock inF (bindTok env v v.text .loopVar) b).1
           simp [List.append_assoc])
 
 theorem genFor_case (sp : Span) (names : List Tok) (es : ExprList) (b : Block) (hes : EsOK es) (hb : BOK b) :
@@ -610,7 +569,7 @@ theorem genFor_case (sp : Span) (names : List Tok) (es : ExprList) (b : Block) (
   obtain ⟨gb, _⟩ := hb _ inF _ rl
   have inner := inScope ((d1.thenGrow gl).trans gb)
   exact (e1.trans inner).block r
-    (by show _ = eEs inF env es ++ dEs inF env es ++ (sBlock inF (bindAll env .loopVar names) b).1
+    (by show _ = eEs inF env es ++ dEs inF env es ++ sDeclAll env .loopVar names ++ (sBlock inF (bindAll env .loopVar names) b).1
         simp [List.append_assoc])
 
 theorem localAssign_case (sp : Span) (names : List Tok) (es : ExprList) (hes : EsOK es) :
@@ -621,7 +580,7 @@ theorem localAssign_case (sp : Span) (names : List Tok) (es : ExprList) (hes : E
   obtain ⟨gl, rl⟩ := defineAll_grow .local_ names _ inF env ((e1.trans d1).rel r)
   refine ⟨?_, rl⟩
   have := (e1.trans d1).thenGrow gl
-  show Grow σ (defineAll (descEs (eagerEs σ es) es) names) (eEs inF env es ++ dEs inF env es)
+  show Grow σ (defineAll (descEs (eagerEs σ es) es) names) (eEs inF env es ++ dEs inF env es ++ sDeclAll env .local_ names)
   simpa using this
 
 theorem localFunc_case (sp : Span) (name : Tok) (body : FuncBody) (hbody : BodyOK body) :
@@ -632,11 +591,11 @@ theorem localFunc_case (sp : Span) (name : Tok) (body : FuncBody) (hbody : BodyO
   have inner := inScope (hb.grow (by simp [St.open]))
   refine ⟨?_, inner.rel rl⟩
   have := gl.pure inner
-  exact this.cast (by show [] ++ sBody (bindTok env name name.text .localFunc) none body = sBody (bindTok env name name.text .localFunc) none body; simp)
+  exact this
 
 theorem sBody_self (env : Env) (m : Tok) (body : FuncBody) :
-    sBody env (some m) body = sBody (bindTok env m "self" .self_) none body := by
-  cases body; rfl
+    sBody env (some m) body = sDecl env m "self" ++ sBody (bindTok env m "self" .self_) none body := by
+  cases body; simp [sBody]
 
 theorem func_case (sp : Span) (name : FuncName) (body : FuncBody) (hbody : BodyOK body) :
     BlockOK (fun σ => stmt σ (.func sp name body)) (fun inF env => sStmt inF env (.func sp name body)) := by
@@ -671,7 +630,7 @@ theorem func_case (sp : Span) (name : FuncName) (body : FuncBody) (hbody : BodyO
       have := g1.pure inner
       exact this.cast (by
         show _ = (if (!more.isEmpty || (some m).isSome) = true then sRead inF env base else []) ++ sBody env (some m) body
-        rw [sBody_self]; simp)
+        rw [sBody_self])
 
 
 theorem assignTargets_grow (vars : VarList) (es : ExprList) (σ : St) (inF : Bool) (env : Env)
@@ -912,11 +871,29 @@ theorem stmt_ok (s : Stmt) : BlockOK (fun σ => stmt σ s) (fun inF env => sStmt
 end
 
 /-- **The scope-stack machine computes the ordered specification**, for every chunk. -/
-theorem analyse_eq (b : Block) : (analyse b).answers = chunk b := by
+theorem analyse_eq (b : Block) : (analyse b).log = chunk b := by
   have r : Rel ({} : St).stack ({} : St).fdepth false [] :=
     ⟨by simp, by simp, fun n => by simp [stackFind, scopeFind, look, Env.lookup, lb]⟩
   obtain ⟨g, _⟩ := block_ok b {} false [] r
   have := g.ans
-  simpa [analyse, chunk, St.answers] using this
+  simpa [analyse, chunk, St.log] using this
+
+/-- the reads among the answers -/
+theorem log_answers (σ : St) : σ.log.filterMap Ans.readOf = σ.answers := by
+  simp only [St.log, St.answers]
+  induction σ.refs with
+  | nil => rfl
+  | cons r rest ih =>
+    simp only [List.filter_cons]
+    cases hc : r.counted <;> cases hd : r.decl <;> simp [List.filterMap_cons, ih, Ref.ans, Ans.readOf, hd]
+
+/-- the declarations among the answers -/
+theorem log_shadows (σ : St) : σ.log.filterMap Ans.declOf = σ.shadows := by
+  simp only [St.log, St.shadows]
+  induction σ.refs with
+  | nil => rfl
+  | cons r rest ih =>
+    simp only [List.filter_cons]
+    cases hc : r.counted <;> cases hd : r.decl <;> simp [List.filterMap_cons, ih, Ref.ans, Ans.declOf, hd]
 
 end Selene.Scope.CoreProof
